@@ -7,9 +7,17 @@ starts it with /venv/bin/python, its own PYTHONHASHSEED and PYTHONPATH=<GALLIA_S
     c16_child.py JOB.json OUT.json
 
 JOB = {"variant": {"name", "import_first": "server"|"commands", "clock_base": float,
-                   "global_seed": int|None, "via_config": bool, "reverse": bool, "mutant": None|"global_rng"},
+                   "global_seed": int|None, "via_config": bool, "reverse": bool,
+                   "mutant": None|"global_rng"|"shared_model"|"memo_first",
+                   "crowd": None | {"name", plan...}},
        "cases": [{"id", "seed", "params": {...RandomnessParameters...},
-                  "behavior": {...Behavior...}, "hist": {"tour", "cap", "sa_segments", "sweep", "full_sweep"}}]}
+                  "behavior": {...Behavior...}, "hist": {"tour", "cap", "sa_segments", "sweep", "full_sweep"},
+                  "pool": [{"seed", "params", "behavior"}, ...]}]}      (pool: only used by crowd variants)
+
+Crowd variants ("process environments" in which the judged ECU is not the only one): OTHER RandomUDSServer
+objects (case["pool"]: other seeds / other arguments / the same seed with other arguments / an exact twin) are
+created, set up and used in this interpreter before / between / after the judged server's construction, its
+setup() and its requests, as the plan says (see class Crowd).  Only the judged server is recorded.
 
 The child never judges anything: it dumps `server.services` after `setup()` and the
 transcript of `UDSServerTransport.handle_request` for a history that is a
@@ -197,19 +205,176 @@ def model_digest(model: list[dict]) -> list[int]:
     return list(hashlib.sha256(json.dumps(canon).encode()).digest()[:16])
 
 
+def neighbour_stream(model: list[dict]):  # noqa: ANN201
+    """Endless request stream for a NEIGHBOUR ECU (never recorded): walks through its own sessions, asks for
+    security seeds, sends a key, reads / writes, resets - everything that moves per-ECU state."""
+    paths = bfs_paths(model)
+    by_s = {e["s"]: e for e in model}
+    order = [s for s in sorted(paths) if s != 1 and s in by_s] + [1]
+    while True:
+        for s in order:
+            for t in paths.get(s) or [s]:
+                yield bytes([0x10, t])
+            yield b"\x22\xf1\x86"
+            sa = [x for v in by_s.get(s, {"svcs": []})["svcs"] if v["id"] == 0x27 and v["hasSf"] for x in v["sf"] if x % 2]
+            sf = sa[0] if sa else 0x01
+            yield bytes([0x27, sf])
+            yield bytes([0x27, sf + 1, 0x11, 0x22])
+            yield b"\x3e\x00"
+            yield b"\x19\x02\xff"
+            for v in sorted(by_s.get(s, {"svcs": []})["svcs"], key=lambda v: v["id"])[:6]:
+                yield bytes([v["id"], 0x01])
+                yield bytes([v["id"], 0xF1, 0x90])
+            yield b"\x2e\xf1\x90\x41\x42"
+            yield b"\x31\x01\x12\x34"
+            if s % 2 == 0:
+                yield b"\x11\x01"
+
+
+class CrowdError(BaseException):
+    """A bug in a crowd plan / in this file: must end the child (machinery failure), never become a recorded
+    outcome of the judged ECU (hence not an Exception)."""
+
+
+class Crowd:
+    """The other virtual ECUs of this process.  plan (all keys optional; j = index into case["pool"]):
+         events  "start" / "created" / "ready"         around the FIRST judged server: before it is constructed /
+                                                        constructed, not yet set up / set up (model not yet dumped)
+                 "restart" / "recreated" / "restarted" the same around every later judged server (history segments)
+                 "end"                                  after the last request
+                 each a list of actions ["create", j] | ["setup", j] | ["new", j] (= create + setup) | ["req", j, n]
+         "gather": {"before": [j..], "after": [j..]}   the first judged setup() runs inside ONE asyncio.gather with
+                                                        the setups of these (already created) neighbours
+         "at":    [[fraction of the judged history, [actions]], ...]   between two judged requests
+         "every": [m, n] or [m, n, "concurrent"]        before every m-th judged request n requests go to the next
+                                                        neighbour (round robin); "concurrent": the neighbour's
+                                                        request and the judged one are gathered as two tasks
+    """
+
+    def __init__(self, build, pool: list[dict], plan: dict, S) -> None:  # noqa: ANN001
+        self.build, self.pool, self.plan, self.S = build, pool, plan or {}, S
+        self.live: dict[int, dict] = {}
+        self.kept: list = []  # earlier instances stay alive
+        self.stats = {"created": 0, "setups": 0, "requests": 0, "raised": 0, "events": 0, "nb_failed": 0, "skipped": 0}
+        self.rr = 0
+        self.marks: dict[int, list] = {}
+
+    def __bool__(self) -> bool:
+        return bool(self.plan)
+
+    async def act(self, a: list) -> None:
+        op, j = a[0], a[1]
+        if op in ("create", "new"):
+            if j in self.live:
+                self.kept.append(self.live[j])
+            try:
+                self.live[j] = {"srv": self.build(self.pool[j]), "tr": None, "it": None}
+                self.stats["created"] += 1
+            except Exception:  # noqa: BLE001  (arguments a neighbour cannot be built from: its business)
+                self.live[j] = {"srv": None, "tr": None, "it": None}
+                self.stats["nb_failed"] += 1
+        if op in ("setup", "new"):
+            await self.setup(j)
+        if op == "req":
+            await self.requests(j, a[2])
+
+    async def setup(self, j: int) -> None:
+        from gallia.transports import TargetURI
+
+        e = self.live[j]
+        if e["srv"] is None:
+            return
+        try:
+            await e["srv"].setup()
+        except Exception:  # noqa: BLE001  (a neighbour whose setup() raises is not judged here)
+            self.stats["nb_failed"] += 1
+            return
+        e["tr"] = self.S.UDSServerTransport(e["srv"], TargetURI(f"unix-lines:///nonexistent/c16-nb{j}.sock"))
+        e["it"] = neighbour_stream(dump_model(e["srv"].services))
+        self.stats["setups"] += 1
+
+    async def requests(self, j: int, n: int, alongside=None):  # noqa: ANN001, ANN201
+        e = self.live[j]
+        if e["tr"] is None:  # never built / set up (see act): nothing to talk to
+            self.stats["skipped"] += 1
+            return None
+
+        async def one(q: bytes) -> None:
+            self.stats["requests"] += 1
+            try:
+                await e["tr"].handle_request(q)
+            except Exception:  # noqa: BLE001
+                self.stats["raised"] += 1
+
+        out = None
+        for x in range(n):
+            if alongside is not None and x == 0:
+                import asyncio
+
+                _nb, out = await asyncio.gather(one(next(e["it"])), alongside())
+            else:
+                await one(next(e["it"]))
+        return out
+
+    async def at(self, event: str) -> None:
+        try:
+            for a in self.plan.get(event, []):
+                self.stats["events"] += 1
+                await self.act(a)
+        except Exception as e:  # noqa: BLE001
+            raise CrowdError(f"crowd plan {self.plan.get('name')} event {event}: {type(e).__name__}: {e}") from e
+
+    async def judged_setup(self, server, first: bool) -> None:  # noqa: ANN001
+        g = self.plan.get("gather")
+        if not g or not first:
+            await server.setup()
+            return
+        import asyncio
+
+        missing = [j for j in list(g.get("before", [])) + list(g.get("after", [])) if j not in self.live]
+        if missing:
+            raise CrowdError(f"crowd plan {self.plan.get('name')}: gather names neighbours never created: {missing}")
+        await asyncio.gather(*[self.setup(j) for j in g.get("before", [])], server.setup(),
+                             *[self.setup(j) for j in g.get("after", [])])
+
+    def schedule(self, total: int) -> None:
+        for frac, acts in self.plan.get("at", []):
+            self.marks.setdefault(max(1, min(total, int(frac * total))), []).extend(acts)
+
+    async def before_request(self, n: int, judged):  # noqa: ANN001, ANN201
+        """Runs what the plan puts before the n-th judged request; returns the judged outcome if the request was
+        already issued here (concurrently with a neighbour's), else None."""
+        try:
+            for a in self.marks.get(n, []):
+                self.stats["events"] += 1
+                await self.act(a)
+        except Exception as e:  # noqa: BLE001
+            raise CrowdError(f"crowd plan {self.plan.get('name')} before request {n}: {type(e).__name__}: {e}") from e
+        ev = self.plan.get("every")
+        if ev and n % ev[0] == 0:
+            ready = sorted(j for j, e in self.live.items() if e["tr"] is not None)
+            if ready:
+                j = ready[self.rr % len(ready)]
+                self.rr += 1
+                if len(ev) > 2 and ev[2] == "concurrent":
+                    return await self.requests(j, ev[1], alongside=judged)
+                await self.requests(j, ev[1])
+        return None
+
+
 async def run_case(S, case: dict, variant: dict) -> dict:  # noqa: ANN001
     import random
 
     from gallia.services.uds.core.constants import UDSIsoServices
     from gallia.transports import TargetURI
 
-    p = dict(case["params"])
-    for k in ("mandatory_services", "optional_services"):
-        if k in p:
-            p[k] = [UDSIsoServices(x) for x in p[k]]
     out: dict = {"id": case["id"]}
 
-    async def fresh():  # noqa: ANN202
+    def build(spec: dict):  # noqa: ANN202
+        p = dict(spec["params"])
+        for k in ("mandatory_services", "optional_services"):
+            if k in p:
+                p[k] = [UDSIsoServices(x) for x in p[k]]
         if variant.get("via_config"):
             from gallia.commands.script.vecu import RngVirtualECU, RngVirtualECUConfig
 
@@ -222,15 +387,26 @@ async def run_case(S, case: dict, variant: dict) -> dict:  # noqa: ANN001
             for k in ("mandatory_sessions", "optional_sessions"):
                 if k in pc:
                     pc[k] = [hex(int(x)) for x in pc[k]]
-            cfg = RngVirtualECUConfig(target="unix-lines:///nonexistent/c16.sock", seed=case["seed"], **pc,
-                                      **case["behavior"])
-            server = RngVirtualECU(cfg)._server()
-        else:
-            server = S.RandomUDSServer(case["seed"], S.RandomUDSServer.RandomnessParameters(**p),
-                                       S.UDSServer.Behavior(**case["behavior"]))
+            cfg = RngVirtualECUConfig(target="unix-lines:///nonexistent/c16.sock", seed=spec["seed"], **pc,
+                                      **spec["behavior"])
+            return RngVirtualECU(cfg)._server()
+        return S.RandomUDSServer(spec["seed"], S.RandomUDSServer.RandomnessParameters(**p),
+                                 S.UDSServer.Behavior(**spec["behavior"]))
+
+    crowd = Crowd(build, case.get("pool", []), variant.get("crowd") or {}, S)
+    nfresh = 0
+
+    async def fresh():  # noqa: ANN202
+        nonlocal nfresh
+        first = nfresh == 0
+        nfresh += 1
+        await crowd.at("start" if first else "restart")
+        server = build(case)
+        await crowd.at("created" if first else "recreated")
         if variant.get("global_seed") is not None:
             random.seed(variant["global_seed"] * 7919 + 1)
-        await server.setup()
+        await crowd.judged_setup(server, first)
+        await crowd.at("ready" if first else "restarted")
         return server
 
     try:
@@ -242,7 +418,9 @@ async def run_case(S, case: dict, variant: dict) -> dict:  # noqa: ANN001
     out["model"] = model
     trace = []
     n = 0
-    for si, segment in enumerate(build_history(model, case.get("hist", {}))):
+    segments = build_history(model, case.get("hist", {}))
+    crowd.schedule(sum(len(sg) for sg in segments))
+    for si, segment in enumerate(segments):
         if si > 0:
             try:
                 server = await fresh()
@@ -261,23 +439,32 @@ async def run_case(S, case: dict, variant: dict) -> dict:  # noqa: ANN001
             else:
                 q = bytes([0x27, arg]) + last_seed + b"\x5a"
             n += 1
-            if variant.get("pace"):
-                variant["_clk"][0] += float(variant["pace"])  # the tester's pause before this request (< 10 s)
-            if variant.get("global_seed") is not None and n % 97 == 0:
-                random.seed(variant["global_seed"] + n)
-            try:
-                r, _dt = await tr.handle_request(q)
-                if r is None:
-                    step = {"q": list(q), "k": kind, "o": "n", "r": []}
-                else:
-                    step = {"q": list(q), "k": kind, "o": "r", "r": list(r)}
-                    if len(q) >= 1 and q[0] == 0x27 and len(r) >= 2 and r[0] == 0x67 and r[1] % 2 == 1:
-                        last_seed = bytes(r[2:])
-            except Exception as e:  # noqa: BLE001
-                step = {"q": list(q), "k": kind, "o": "x", "r": [], "x": type(e).__name__}
+
+            async def judged(q: bytes = q, kind: str = kind, tr=tr) -> dict:  # noqa: ANN001
+                if variant.get("pace"):
+                    variant["_clk"][0] += float(variant["pace"])  # the tester's pause before this request (< 10 s)
+                if variant.get("global_seed") is not None and n % 97 == 0:
+                    random.seed(variant["global_seed"] + n)
+                try:
+                    r, _dt = await tr.handle_request(q)
+                    if r is None:
+                        return {"q": list(q), "k": kind, "o": "n", "r": []}
+                    return {"q": list(q), "k": kind, "o": "r", "r": list(r)}
+                except Exception as e:  # noqa: BLE001
+                    return {"q": list(q), "k": kind, "o": "x", "r": [], "x": type(e).__name__}
+
+            step = (await crowd.before_request(n, judged)) if crowd else None
+            if step is None:
+                step = await judged()
+            r = step["r"]
+            if step["o"] == "r" and len(q) >= 1 and q[0] == 0x27 and len(r) >= 2 and r[0] == 0x67 and r[1] % 2 == 1:
+                last_seed = bytes(r[2:])
             trace.append(step)
+    await crowd.at("end")
     out["tr"] = trace
     out["final_session"] = int(server.state.session)
+    if crowd:
+        out["crowd"] = dict(crowd.stats, plan=variant["crowd"].get("name"))
     return out
 
 
@@ -305,6 +492,24 @@ def main() -> None:
                 return random.random()
 
         S.RNG = GlobalRNG  # type: ignore[misc]
+
+    if variant.get("mutant") in ("shared_model", "memo_first"):
+        # binding self-test only (crowd family): virtual ECUs whose model lives in ONE object per process;
+        # "shared_model": every setup() republishes it (the last ECU set up wins),
+        # "memo_first":   it is computed once per process (the first ECU set up wins)
+        _orig_randomize = S.RandomUDSServer.randomize
+        _shared: dict = {}
+        _first = variant["mutant"] == "memo_first"
+
+        def _randomize(self) -> None:  # noqa: ANN001
+            if not (_first and _shared):
+                _orig_randomize(self)
+                mine = dict(self.services)
+                _shared.clear()
+                _shared.update(mine)
+            self.services = _shared
+
+        S.RandomUDSServer.randomize = _randomize  # type: ignore[method-assign]
 
     import asyncio
 
